@@ -163,6 +163,12 @@ def run(tier, replay=None):
             elif r < 0.3:
                 sig = "SIGINT"
             cases.append((p, k, sig))
+        # a handled signal while the lock is being taken: before the check, between the creation
+        # of the lock file and the registration of the handler that removes it, and just after
+        if p["name"] in ("chain", "split2") or thorough:
+            for i, e in enumerate(mine):
+                if e["ev"] in ("LockCheck", "LockCreated", "Lock"):
+                    cases.append((p, i + 1, "SIGTERM" if (i + len(p["name"])) % 2 else "SIGINT"))
     if replay:
         spec = json.load(open(os.path.join(replay, "case.json")))
         cases = [(p, spec["k"], spec["sig"]) for p in progs if p["name"] == spec["program"]]
